@@ -71,7 +71,7 @@ pub enum BufKind {
 pub const LADDER: &[usize] = &[
     0, 1, 2, 3, 4, 5, 6, 7, 8, 9, 10, 11, 12, 13, 14, 15, 16, 17, 18, 19, 20, 21, 22, 23, 24, 25,
     26, 27, 28, 29, 30, 31, 32, 33, 34, 35, 36, 37, 38, 39, 40, 48, 64, 96, 128, 255, 256, 257,
-    512, 1024, 2048, 4096, 8191, 8192, 8193, 70000, 300000,
+    512, 1024, 2048, 4096, 8191, 8192, 8193, 70000, 300000, 1500000,
 ];
 
 /// smallest ladder capacity >= n
@@ -95,7 +95,7 @@ macro_rules! with_cap {
         $crate::with_cap_list!($n, $B => $body;
               0 1 2 3 4 5 6 7 8 9 10 11 12 13 14 15 16 17 18 19 20 21 22 23 24 25
               26 27 28 29 30 31 32 33 34 35 36 37 38 39 40 48 64 96 128 255 256 257
-              512 1024 2048 4096 8191 8192 8193 70000 300000)
+              512 1024 2048 4096 8191 8192 8193 70000 300000 1500000)
     };
 }
 
